@@ -228,6 +228,21 @@ class RecTracer(pjrpc.client.Tracer):
               exc=type(error).__name__, oid=w.ordinal(error))
 
 
+class RecTracerInst(pjrpc.client.Tracer):
+    """The same recording tracer, but its class overrides nothing: the hooks are installed on the instance (partials),
+    as tracers assembled at run time do."""
+
+    def __init__(self, world: World, idx: int, node: str, raises_on_end: bool = False):
+        import functools
+        self.world = world
+        self.idx = idx
+        self.node = node
+        self.raises_on_end = raises_on_end
+        self.on_request_begin = functools.partial(RecTracer.on_request_begin, self)  # type: ignore[method-assign,arg-type]
+        self.on_request_end = functools.partial(RecTracer.on_request_end, self)      # type: ignore[method-assign,arg-type]
+        self.on_error = functools.partial(RecTracer.on_error, self)                  # type: ignore[method-assign,arg-type]
+
+
 def _safe_json(obj: Any) -> Any:
     try:
         return jnorm(obj.to_json())
@@ -358,9 +373,8 @@ def run_scenario(w: World, scn: Dict[str, Any], client_async: bool, suffix: str 
     obs = Obs()
     node = 'client' + suffix
     if reuse is None:
-        tracers = [RecTracer(w, i, node, raises_on_end=(scn.get('tracer_raises_on_end') == i),
-                             instance_hooks=bool(scn.get('tracer_instance_hooks')) and i % 2 == 0)
-                   for i in range(scn['tracers'])]
+        tracers = [(RecTracerInst if (scn.get('tracer_instance_hooks') and i % 2 == 0) else RecTracer)(
+            w, i, node, raises_on_end=(scn.get('tracer_raises_on_end') == i)) for i in range(scn['tracers'])]
         if scn.get('lib_tracer') is not None:
             tracers = list(tracers)
             tracers.insert(min(scn['lib_tracer'], len(tracers)), pjrpc.client.tracer.LoggingTracer())
